@@ -40,17 +40,16 @@ structure VarintCfg where
   decTooManyFrom : Nat  -- `if n > 8`                  (inclusive bound)
   decShift : Nat        -- `x<<8 | uint64(b)`
   decBufSize : Nat      -- `make([]byte, 9)` in GobDecode: `buf[0:n]` panics beyond it
-  found : Bool          -- every constant was recognised in the source
   deriving Repr
 
-/-- the constants as they are in the Go source now -/
+/-- the constants as they are in the Go source now (for a function whose shape the extractor does not recognise: the
+hand-written defaults, i.e. the model as it was before regeneration — then only the correspondence ties it to the code) -/
 def genCfg : VarintCfg :=
   { encBelow := Gen.Dawg.encBelow, lzBits := Gen.Dawg.lzBits, lzShift := Gen.Dawg.lzShift,
     encBufFull := Gen.Dawg.encBufFull, encPrefixSum := Gen.Dawg.encPrefixSum, encLoopBound := Gen.Dawg.encLoopBound,
     encDstOffset := Gen.Dawg.encDstOffset, encShiftUnit := Gen.Dawg.encShiftUnit, encShiftTop := Gen.Dawg.encShiftTop,
     decBelow := Gen.Dawg.decBelow, decPrefixBase := Gen.Dawg.decPrefixBase, decTooManyFrom := Gen.Dawg.decTooManyFrom,
-    decShift := Gen.Dawg.decShift, decBufSize := Gen.Dawg.decBufSize,
-    found := Gen.Dawg.foundVarint && Gen.Dawg.foundBuffers }
+    decShift := Gen.Dawg.decShift, decBufSize := Gen.Dawg.decBufSize }
 
 /-- `bits.LeadingZeros<bits>(x)` -/
 def lz (bits x : Nat) : Nat := bits - (if x = 0 then 0 else x.log2 + 1)
